@@ -5,10 +5,14 @@ import Gossamer.Props.C26
 #print axioms Gossamer.C26.C26_terminates
 #print axioms Gossamer.C26.C26_fuel_stable
 #print axioms Gossamer.C26.C26_never_hangs
+#print axioms Gossamer.C26.C26_skipped_own_fork
+#print axioms Gossamer.C26.C26_skipped_config_own_fork
 #print axioms Gossamer.C26.C26_wf_reachable
-#print axioms Gossamer.C26.C26_imported_header_ok
+#print axioms Gossamer.C26.C26_known_header_ok
 #print axioms Gossamer.C26.C26_own_fork_history
 #print axioms Gossamer.C26.C26_config_own_fork_history
+#print axioms Gossamer.C26.C26_skipped_own_fork_history
+#print axioms Gossamer.C26.C26_db_from_finalised
 #print axioms Gossamer.C26.C26_prompt_history
-#print axioms Gossamer.C26.C26_old_loop_diverges
 #print axioms Gossamer.C26.C26_first_slot_own_fork
+#print axioms Gossamer.C26.C26_old_loop_diverges
